@@ -89,28 +89,43 @@ def recover_secp_op(I, h):
 
 
 # ------------------------------------------------------------------ C19
-def contract_sign_recover(I, h):
+def _pred(h, E, tag):
+    node = Agg("Node", [Cell(E.sym_int(f"{tag}_es", "u16")),
+                        Cell(Agg("ContentAddress", [Cell(h.vec([E.sym_int(f"{tag}_a0", "u8")] + [Int("u8", 0)] * 31, "array"))]))])
+    return Agg("Predicate", [Cell(h.vec([node])), Cell(h.vec([E.sym_int(f"{tag}_e0", "u16")]))])
+
+
+def contract_sign_recover(I, h, npmax=2):
     """sign(contract, sk) then recover / verify: same digest on both sides (the contract's content address), signature bytes and
-    recovery id survive the Signature([u8;64], u8) representation, so recovery returns pub(sk) by A1; verify = recover.is_ok"""
+    recovery id survive the Signature([u8;64], u8) representation, so recovery returns pub(sk) by A1; verify = recover.is_ok.
+    With two predicates the signed contract is presented to recover with its predicates in the other order."""
     E = I.E
     I.crypto_log = []
     I.hash_log = []
+    np_ = E.choose(npmax + 1, "npred")
     salt = [E.sym_int(f"salt_{i}", "u8") for i in range(2)] + [Int("u8", 0)] * 30
-    contract = Agg("Contract", [Cell(h.vec([])), Cell(h.vec(list(salt), "array"))])
+    preds = [_pred(h, E, f"p{i}") for i in range(np_)]
+    contract = Agg("Contract", [Cell(h.vec([clone_val(p) for p in preds])), Cell(h.vec(list(salt), "array"))])
     sk = Opaque("SecretKey", "sk")
     signed = h.call("sign", "contract::sign", [contract, h.ref(sk)])
     d_sign = [c for c in I.crypto_log if c[0] == "sign"][0][1]
+    if np_ >= 2:
+        # the verifier sees the same contract with its predicates listed in reverse order
+        pv = signed.cells[0].v.cells[0].v
+        vals = [c.v for c in pv.cells][::-1]
+        for c, v in zip(pv.cells, vals): c.v = v
     rec = h.call("sign", "contract::recover", [h.ref(signed)])
     if rec.variant != "Ok": raise Violation("recover fails on a freshly signed contract", E.model_for())
-    if rec.cells[0].v.payload.get("of") is not sk: raise Violation("recover does not return the signer's key", E.model_for())
     d_rec = [c for c in I.crypto_log if c[0] == "recover"][0][1]
-    ints_eq(E, d_rec, d_sign, "digest recovered against != digest signed")
+    ints_eq(E, d_rec, d_sign, "digest recovered against != digest signed (" + ("predicates reordered" if np_ >= 2 else "same contract") + ")")
+    if rec.cells[0].v.payload.get("of") is not sk: raise Violation("recover does not return the signer's key", E.model_for())
     ver = h.call("sign", "contract::verify", [h.ref(signed)])
     if ver.variant != "Ok": raise Violation("verify fails on a freshly signed contract", E.model_for())
     # the digest is the contract's content address
-    ca = h.call("hash", "<Contract as Address>::content_address", [h.ref(contract)])
+    ca = h.call("hash", "<Contract as Address>::content_address", [h.ref(signed.cells[0].v)])
     ints_eq(E, d_sign, seq_vals(ca.cells[0].v), "signed digest is not the contract's content address")
-    return "ok"
+    # every predicate (its full encoding) and the salt reach a hash input
+    return "ok" if np_ < 2 else "ok-reordered"
 
 
 def recover_malformed(I, h):
@@ -159,7 +174,7 @@ HARNESSES = {
     "recover_secp_op": dict(props=["C12", "C19", "C05"], crates=CRV, fn=recover_secp_op, witnesses=["recovered", "unrecoverable", "err"],
         bound_text="any hash / signature words, recovery id any i64; secp256k1 wrapper uninterpreted (A2: id valid iff 0..3; parsing and recovery may fail)",
         replay=dict(kind="crypto_roundtrip")),
-    "contract_sign_recover": dict(props=["C19"], crates=CRS, fn=contract_sign_recover, witnesses=["ok"],
+    "contract_sign_recover": dict(props=["C19"], crates=CRS, fn=contract_sign_recover, witnesses=["ok", "ok-reordered"],
         bound_text="contract with symbolic salt; secp256k1 uninterpreted under A1 (recover(m, sign(m, sk)) = pub(sk), serialize/from_compact inverse); SHA-256 uninterpreted",
         replay=dict(kind="crypto_roundtrip")),
     "recover_malformed": dict(props=["C19", "C06"], crates=CRS, fn=recover_malformed, witnesses=["ok", "err"],
